@@ -14,7 +14,7 @@ from harness.core import cN, cnat, cbool, clist, ctuple
 from harness.gen import c08docs, faults as F
 
 HEADER = ('From Coq Require Import List Bool ZArith NArith.\n'
-          'From PC Require Import Base.Outcome Base.Libs Gen.Params Model.Errors Check.C08.\n'
+          'From PC Require Import Base.Atoms Base.Xml Base.Outcome Base.Libs Gen.Params Model.Errors Model.LoadSites Check.C08.\n'
           'Import ListNotations.\n')
 CASE_TYPE = 'C08.case'
 DAE = ['DaeError', 'DaeIncompleteError', 'DaeBrokenRefError', 'DaeMalformedError', 'DaeUnsupportedError',
@@ -223,6 +223,81 @@ def c_mask_case(case, res):
     return '(CaseMask %s %s)' % (clist(steps), cnat(res['mask_len']))
 
 
+# ------------------------------------------------------------------ loader sites
+
+from harness.enc.xml2coq import Enc
+import xml.etree.ElementTree as _ET
+
+
+class SiteEnc(Enc):
+    """url/target/source attributes as ARef (starts with '#', rest)"""
+    def element(self, e):
+        self.uid += 1
+        uid = self.uid
+        ns, local = self.split_tag(e.tag)
+        at = []
+        for k, v in e.attrib.items():
+            kk = self.split_tag(k)[1]
+            if kk in ('url', 'target', 'source'):
+                val = '(ARef %s %d%%N)' % (('true', self.I.atom(v[1:])) if v.startswith('#') else ('false', self.I.atom(v)))
+            else:
+                val = self.aval(v)
+            at.append('(%d%%N, %s)' % (self.I.atom(kk), val))
+        kids = '; '.join(self.element(c) for c in e if isinstance(c.tag, str))
+        return '(El %d%%N %d%%N %d%%N [%s] %s [%s])' % (uid, self.I.atom(ns), self.I.atom(local), '; '.join(at),
+                                                      self.toks(e.text), kids)
+
+
+def site_cases(bases, dcases, dres, limit):
+    out = []
+    for c, r in zip(dcases, dres):
+        if len(c['faults']) != 1 or c['faults'][0]['kind'] in ('truncate', 'prefix', 'badbyte', 'reencode', 'crossref'):
+            continue
+        text = bases[c['base']]
+        it = F.site_item(text, c['faults'][0])
+        if it is None:
+            continue
+        kind, item = it
+        if any(ch.isspace() for ch in '') or '> <' in item:
+            pass
+        strict = next((x for x in r.get('runs', []) if x['config'] == 'strict'), None)
+        if strict is None:
+            continue
+        out.append({'kind': kind, 'item': item, 'base': c['base'], 'base_xml': text, 'fault': c['faults'][0],
+                    'doc_esc': strict['esc']})
+        if len(out) >= limit:
+            break
+    return out
+
+
+def c_site_case(case, res):
+    enc = SiteEnc()
+    el = _ET.fromstring(case['item'])
+    x = enc.element(el)
+    ns = enc.I.atom(enc.split_tag(el.tag)[0])
+    root = F.parse(case['base_xml'])
+    effects = [e.get('id') for e in root.iter('{%s}effect' % F.NS)]
+    return '(CaseSite %s %d%%N %s %s %s %s)' % (case['kind'], ns, clist(['%d%%N' % enc.I.atom(i) for i in effects if i]), x,
+                                             cnat(res['direct']), cnat(res['doc']))
+
+
+def crashed_site(case, reason):
+    return {'direct': 99, 'doc': 99, 'fails': [{'signature': 'C08:site:crash-or-hang', 'clause': 'crash-or-hang',
+                                                 'what': 'calling the loader crashes or hangs: %s' % reason}]}
+
+
+def run_sites(cases, chunk=150):
+    from concurrent.futures import ThreadPoolExecutor
+    chunks = [cases[i:i + chunk] for i in range(0, len(cases), chunk)]
+
+    def one(ch):
+        return core.run_cases_bisect('c08', ch, lambda cs: {'kind': 'site', 'cases': [
+            {k: v for k, v in c.items() if k in ('kind', 'item', 'base_xml', 'doc_esc')} for c in cs]}, crashed_site, timeout=240)
+    with ThreadPoolExecutor(max_workers=core.NCPU) as ex:
+        outs = list(ex.map(one, chunks))
+    return [r for o in outs for r in o]
+
+
 # ------------------------------------------------------------------ running
 
 def crashed(case, reason):
@@ -286,18 +361,22 @@ def run(ctx):
                              'input': {'base': name, 'faults': []}})
     failures += failures_of(dcases, dres)
     failures += failures_of(mcases, mres)
-    terms = [c_doc_case(r) for r in dres] + [c_mask_case(c, r) for c, r in zip(mcases, mres)]
+    scases = site_cases(bases, dcases, dres, 450 if ctx.quick() else 100000)
+    sres = run_sites(scases)
+    failures += failures_of(scases, sres)
+    terms = [c_doc_case(r) for r in dres] + [c_mask_case(c, r) for c, r in zip(mcases, mres)] \
+        + [c_site_case(c, r) for c, r in zip(scases, sres)]
     ctx.log('evaluating the model on the same cases inside Coq')
     bad, errors = core.coq_eval_cases(ctx, HEADER, CASE_TYPE, terms, 'C08.mismatches', chunk=150)
     known = {k['signature'] for k in core.load_known() if k.get('property') == 'C08'}
     mismatches = []
-    allcases = dcases + mcases
-    allres = dres + mres
+    allcases = dcases + mcases + [{'site': {k: v for k, v in c.items() if k != 'base_xml'}} for c in scases]
+    allres = dres + mres + sres
     for i in bad[:20]:
         r = allres[i]
         sigs = [f['signature'] for f in r.get('fails', [])]
         mismatches.append({'case_index': i, 'input': allcases[i],
-                           'implementation_observed': {k: v for k, v in r.items() if k in ('runs', 'events', 'steps', 'mask_len', 'affected')},
+                           'implementation_observed': {k: v for k, v in r.items() if k in ('runs', 'events', 'steps', 'mask_len', 'affected', 'direct', 'direct_name', 'doc', 'doc_name')},
                            'explained_by_known': bool(sigs) and all(s in known for s in sigs)})
     for i, r in enumerate(dres):
         if not r.get('trace_agrees', True):
@@ -327,7 +406,7 @@ def run(ctx):
                 'configurations and once traced; the model is run for every configuration inside Coq',
         'samples': [{'input': c, 'runs': r['runs'], 'events': r['events'][:12]} for c, r in list(zip(dcases, dres))[:3]],
         'distribution': {'faults_by_kind': kinds, 'strict_outcome': outcome, 'generation': stats,
-                         'bases': {k: v['n'] for k, v in binfo.items()}, 'mask_histories': len(mcases)},
+                         'bases': {k: v['n'] for k, v in binfo.items()}, 'mask_histories': len(mcases), 'loader_sites': len(scases)},
         'mismatches': mismatches, 'errors': errors,
         'exhaustive': True,
     }
